@@ -32,6 +32,8 @@ __CPROVER_ensures((__CPROVER_return_value == -EEAV_LPART_INVALID_UTF8) ==> (g_po
 __CPROVER_ensures(__CPROVER_return_value == -EEAV_LPART_CTRL_CHAR ==> (g_cur >= 0 && (g_cur < 32 || g_cur == 127)))
 __CPROVER_ensures(__CPROVER_return_value == -EEAV_LPART_TOO_MANY_DOTS ==> (g_cur == '.' && g_prevch == '.'))
 __CPROVER_ensures(__CPROVER_return_value == -EEAV_LPART_MISPLACED_DOT ==> (g_cur == '.' && (g_prevch == -1 || g_pos == g_len)))
+__CPROVER_ensures(__CPROVER_return_value == -EEAV_LPART_SPECIAL ==> ((g_cur <= 127 && ((L_IS_SPECIAL(g_cur) && g_cur != '"' && g_cur != '.') || g_cur == ' ' || L_IS_RFC20_CHAR(g_cur))) || (g_cur > 127 && g_state == L_DEAD)))
+__CPROVER_ensures(__CPROVER_return_value == -EEAV_LPART_MISPLACED_QUOTE ==> (g_cur == '"' || g_prevch == '"'))
 __CPROVER_ensures(__CPROVER_return_value == -EEAV_LPART_UNQUOTED ==> (g_pos == g_len && (g_state == L_QTEXT || g_state == L_QPAIR)))
 ;
 
@@ -43,7 +45,7 @@ __CPROVER_ensures(__CPROVER_return_value == -EEAV_LPART_UNQUOTED ==> (g_pos == g
     __CPROVER_loop_invariant(U_OK && g_pos == (size_t)u.the_index \
         && (quote==0||quote==1) && (qpair==0||qpair==1) && (!quote ==> !qpair) \
         && (u.the_index == 0) == (prev == -1) && prev >= -1 && prev < u.the_index \
-        && (prev >= 0 ==> ((g_cur == '.') == (start[prev] == '.'))) && (prev < 0 ==> g_cur == -1) \
+        && (prev >= 0 ==> (((g_cur == '.') == (start[prev] == '.')) && ((g_cur == '"') == (start[prev] == '"')))) && (prev < 0 ==> g_cur == -1) \
         && g_state == (quote ? (qpair ? L_QPAIR : L_QTEXT) : (prev < 0 || start[prev] == '.') ? L_START : (start[prev] == '"') ? L_QEND : L_ATOM) \
         && ((!quote && prev >= 0 && start[prev] == '.') ==> (prev + 1 == u.the_index && u.the_index < u.the_length))) \
     __CPROVER_decreases(u.the_length - u.the_index)
